@@ -30,7 +30,7 @@ pub fn grid(tier: Tier) -> Vec<i64> {
                 v.push(x);
                 v.push(-x);
             }
-            for k in [3u32, 7, 8, 15, 16, 30, 31, 32, 33, 47, 48, 61, 62, 63] {
+            for k in [2u32, 3, 4, 5, 7, 8, 9, 12, 15, 16, 20, 24, 30, 31, 32, 33, 40, 47, 48, 53, 56, 60, 61, 62, 63] {
                 let p = 1i128 << k;
                 for d in [-1i128, 0, 1] {
                     v.push(p + d);
